@@ -41,20 +41,38 @@ def parsePairsR : List String → Option (List (Nat × Nat × Bytes))
     let a ← a.toNat?
     let n ← n.toNat?
     let r ← parsePairsR rest
-    pure ((a, n, pattern n) :: r)
+    pure ((a, n, if n ≤ BIG then pattern n else []) :: r)
   | _ => none
 
-def parsePairsW : List String → Option (List (Nat × Bytes))
+/-- write data token: hex bytes, or `claim:N` = a claimed size of N with (for the model) no bytes -/
+def parseData (d : String) : Option (Nat × Bytes) :=
+  if d.startsWith "claim:" then (d.drop 6).toString.toNat?.map fun n => (n, [])
+  else (hexToBytes d).map fun b => (b.length, b)
+
+def parsePairsW : List String → Option (List (Nat × Nat × Bytes))
   | [] => some []
   | a :: d :: rest => do
     let a ← a.toNat?
-    let d ← hexToBytes d
+    let (n, d) ← parseData d
     let r ← parsePairsW rest
-    pure ((a, d) :: r)
+    pure ((a, n, d) :: r)
   | _ => none
 
-def parseOp : List String → Option Call
+def devId (kind : String) : Option Bytes :=
+  if kind == "bad" then some (asc "no-such-device")
+  else if kind == "empty" then some []
+  else none
+
+partial def parseOp : List String → Option Call
   | ["init"] => some .initLib
+  | ["gcinfo"] => some .gcGetInfo
+  | ["ifnum", h] => h.toNat?.map .ifGetNumDevices
+  | ["ifupd", h] => h.toNat?.map .ifUpdateDeviceList
+  | ["ifparent", h] => h.toNat?.map .ifGetParentTL
+  | ["ifopendev", h, id] => do pure (.ifOpenDevice (← h.toNat?) (← devId id))
+  | ["ifdevid", h, i, d] => do pure (.info (.ifGetDeviceID (← h.toNat?) (← i.toNat?)) (← parseDst d))
+  | ["ifdevinfo", h, id, c, d] => do
+    pure (.info (.ifGetDeviceInfo (← h.toNat?) (← devId id) (← c.toInt?)) (← parseDst d))
   | ["closelib"] => some .closeLib
   | ["lasterr", d] => (parseDst d).map .getLastError
   | ["tlopen", k] => k.toNat?.map .tlOpen
@@ -76,9 +94,12 @@ def parseOp : List String → Option Call
   | ["read", h, a, n] => do
     let n ← n.toNat?
     pure (.gcReadPort (← h.toNat?) (← a.toNat?) n (if n ≤ BIG then pattern n else []))
-  | ["write", h, a, d] => do pure (.gcWritePort (← h.toNat?) (← a.toNat?) (← hexToBytes d))
+  | ["write", h, a, d] => do
+    let (n, d) ← parseData d
+    pure (.gcWritePort (← h.toNat?) (← a.toNat?) n d)
   | "reads" :: h :: _cnt :: rest => do pure (.gcReadPortStacked (← h.toNat?) (← parsePairsR rest))
   | "writes" :: h :: _cnt :: rest => do pure (.gcWritePortStacked (← h.toNat?) (← parsePairsW rest))
+  | t :: rest => if t.startsWith "np:" then (parseOp rest).map .nullPtr else none
   | _ => none
 
 def showOpt {α} (f : α → String) : Option α → String
@@ -91,6 +112,18 @@ def showDst (d : Dst) : String :=
 /-- calls that have a `piType` out-parameter -/
 def typed : Call → Bool
   | .info q _ => q.typed
+  | .nullPtr c => typed c
+  | _ => false
+
+/-- per entry: is the size only claimed (no real buffer of that size)? -/
+def claimedEntries : Call → List Bool
+  | .gcReadPortStacked _ es => es.map fun e => decide (e.2.1 > BIG)
+  | .nullPtr c => claimedEntries c
+  | _ => []
+
+def claimedRead : Call → Bool
+  | .gcReadPort _ _ n _ => decide (n > BIG)
+  | .nullPtr c => claimedRead c
   | _ => false
 
 def showResult (c : Call) (r : Result) : String :=
@@ -103,11 +136,13 @@ def showResult (c : Call) (r : Result) : String :=
     else s!"{r.code} {showDst d}"
   | .lastError ec d => s!"{r.code} e={showOpt (fun (n : Int) => toString n) ec} {showDst d}"
   | .read size buf =>
-    let claimed : Bool := match c with | .gcReadPort _ _ n _ => decide (n > BIG) | _ => false
-    s!"{r.code} n={size} b={if claimed then "claimed" else showBytes buf}"
+    s!"{r.code} n={size} b={if claimedRead c then "claimed" else showBytes buf}"
   | .write size => s!"{r.code} n={size}"
   | .readStacked k bufs =>
-    s!"{r.code} k={k} b={if bufs.isEmpty then "-" else ",".intercalate (bufs.map showBytes)}"
+    let cl := claimedEntries c
+    let shown := (bufs.zip (cl ++ List.replicate bufs.length false)).map fun (b, isC) =>
+      if isC then "claimed" else showBytes b
+    s!"{r.code} k={k} b={if bufs.isEmpty then "-" else ",".intercalate shown}"
   | .writeStacked k => s!"{r.code} k={k}"
 
 /-- run a sequence, formatting as it goes; an abort prints `panic` and ends the line -/
